@@ -5,6 +5,8 @@ from __future__ import annotations
 
 import ast
 
+import itertools
+
 import z3
 
 from pyvc import builtins as B
@@ -381,3 +383,52 @@ def target_pick_minimum():
 
 def targets():      # noqa: F811
     return _targets_before_pick_minimum() + [target_pick_minimum()]
+
+
+_targets_before_generate_parameters = targets
+
+
+def target_generate_parameters():
+    """`_generate_parameters(peaks, disallow_skew)` (peak analysis): the number it returns is the number of parameters lmfit will
+    actually VARY -- `_analyze_peaks` drops the smallest peaks until that number does not exceed the number of points, which is
+    the up-front refusal that keeps `leastsq` from aborting with "N must not exceed M" after the analysis has started.  Four
+    parameters per peak (height, position, skew, width), the skew varied unless skew is disallowed; the real function on a
+    recording `Parameters`, one to four peaks (the loop body keeps no state between peaks but the count)."""
+    from pyvc import overload as O
+    PA = "analysis/drt/peak_analysis"
+
+    def run(sess: Session):
+        import math
+        for n_peaks, disallow in itertools.product((1, 2, 3, 4), (False, True)):
+            added = []
+
+            class Parameters:
+                def add(self, name=None, value=None, min=None, max=None, vary=True, **kw):
+                    added.append((name, vary))
+            ns = {"Parameters": Parameters, "isclose": lambda a, b, **k: math.isclose(a, b, abs_tol=1e-8), "enumerate": enumerate, "len": len, "dict": dict}
+            O.load(PA, ["_generate_parameters"], ns)
+            peaks = [(0.1 + 0.2 * k, 0.5 + 0.1 * k) for k in range(n_peaks)]
+            out = ns["_generate_parameters"](peaks, disallow)
+            tag = f"[{n_peaks} peak(s), disallow_skew={disallow}]"
+            ok = isinstance(out, tuple) and len(out) == 2 and isinstance(out[0], Parameters)
+            sess.check("post", [], z3.BoolVal(ok), 0, label=f"returns (parameters, number of variables){tag}")
+            if not ok:
+                continue
+            varied = sum(1 for _, v in added if v)
+            ob = sess.check("post", [], z3.BoolVal(out[1] == varied), 0, label=f"the number of variables is the number of parameters that are varied{tag}")
+            if out[1] != varied:
+                ob.detail = f"returned {out[1]}, varied {varied}"
+            names = sorted(n for n, _ in added)
+            want = sorted(f"{p}_{k}" for k in range(n_peaks) for p in ("h", "p", "alpha", "sigma"))
+            sess.check("post", [], z3.BoolVal(names == want and all(v is (not disallow) for n, v in added if n.startswith("alpha_"))), 0, label=f"height, position, skew and width per peak; the skew is varied unless disallowed{tag}")
+        try:
+            ns["_generate_parameters"]([], False)
+            refused = False
+        except ValueError:
+            refused = True
+        sess.check("post", [], z3.BoolVal(refused), 0, label="no peak to analyse is refused with ValueError")
+    return (f"{PA}:_generate_parameters", PA, "_generate_parameters", run)
+
+
+def targets():      # noqa: F811
+    return _targets_before_generate_parameters() + [target_generate_parameters()]
